@@ -126,9 +126,26 @@ class SchemaField:
 
         try:
             dtm.datetime.strptime(value, format)
-            return None  # all good
         except Exception as exc:
             return str(exc)
+
+        # strptime is lenient (1-digit fields, non-ASCII digits, second 61), FIX
+        #   date/time layouts are fixed width ASCII
+        strict = {
+            "%Y": "[0-9]{4}",
+            "%m": "(0[1-9]|1[0-2])",
+            "%d": "(0[1-9]|[12][0-9]|3[01])",
+            "%H": "([01][0-9]|2[0-3])",
+            "%M": "[0-5][0-9]",
+            "%S": "([0-5][0-9]|60)",
+            "%f": "[0-9]{1,6}",
+        }
+        layout = "".join(
+            [strict.get(t, re.escape(t)) for t in re.split("(%[A-Za-z])", format)]
+        )
+        if not re.fullmatch(layout, value):
+            return f"time data {value!r} does not match format {format!r} (fixed width)"
+        return None  # all good
 
     @staticmethod
     def _validate_value_monthyear(value):
